@@ -18,6 +18,7 @@ Goals, per class and per field:
 import dataclasses
 import enum
 import json
+import os
 import pathlib
 import typing
 from dataclasses import dataclass
@@ -336,10 +337,32 @@ def _engine_exc(e):
     return isinstance(e, (SymbolicEscape, EngineError, PathBudgetExceeded))
 
 
+_SERVER = {}
+
+
+def _decide(log, v, key, replay=None, candidates=({},), **_kw):
+    return CS.decide(log, _SERVER["s"], MOD, "C40", v, key, replay, candidates)
+
+
+def _start(log):
+    """fork the replay helper while this process is still unpatched"""
+    import sys
+
+    _SERVER["s"] = CS.ReplayServer(sys.modules[__name__])
+
+
+def _plain_key(tag, parent):
+    if parent in ("tuple", "dict"):
+        return "raw_field:%s-elements-not-normalised" % parent
+    if tag.startswith("np.") and tag not in ("np.ndarray",):
+        return "raw_field:numpy-scalar-not-normalised"
+    return "raw_field:%s-in-%s" % (tag, parent)
+
+
 def _fail(log, what, key, rk):
     """A structural violation on the current path: it is a counterexample iff the path is feasible."""
     v = prove_formula(z3.BoolVal(False), what)
-    log.decide(v, key=key, replay=(MOD, "replay_roundtrip", rk), candidates=[{}])
+    _decide(log, v, key=key, replay=(MOD, "replay_roundtrip", rk), candidates=[{}])
     return v
 
 
@@ -348,9 +371,10 @@ def _typename(t):
     return s.replace("typing.", "").replace("numpy.", "np.")
 
 
-def roundtrip_goals(log, subject, var, x, orig_types):
+def roundtrip_goals(log, subject, var, x, orig_types, label=""):
     cls = type(x)
-    cname = cls.__name__
+    kname = cls.__name__
+    cname = (label + " " if label else "") + kname
     rk = {"subject": subject, "var": var}
     # ---- raw ----
     try:
@@ -358,17 +382,18 @@ def roundtrip_goals(log, subject, var, x, orig_types):
     except Exception as e:
         if _engine_exc(e):
             raise
-        _fail(log, "%s.raw is computed (raised %s: %s)" % (cname, type(e).__name__, e), "raw:%s:%s" % (type(e).__name__, cname),
+        _fail(log, "%s.raw is computed (raised %s: %s)" % (cname, type(e).__name__, e), "raw:%s:%s" % (type(e).__name__, kname),
               dict(rk, aspect="raw-raises", field=None))
         return None
     v = prove_formula(z3.BoolVal(True), "%s.raw is computed" % cname)
     log.ok(v, {"nontrivial": False})
+    ud = CS.user_dicts(x)
     for fname, val in raw.items():
-        bad = CS.nonplain(val, "raw[%r]" % fname)
+        bad = CS.nonplain(val, "raw[%r]" % fname, "field", ud)
         if bad:
             for where, tag, parent in sorted({(b[1], b[2]): b for b in bad}.values()):
                 _fail(log, "%s: %s is plain python data (found %s inside a %s)" % (cname, where, tag, parent),
-                      "raw_field:%s-in-%s" % (tag, parent), dict(rk, aspect="plain", field=fname))
+                      _plain_key(tag, parent), dict(rk, aspect="plain", field=fname))
         else:
             v = prove_formula(z3.BoolVal(True), "%s: raw[%r] is plain python data" % (cname, fname))
             log.ok(v, {"nontrivial": False})
@@ -389,21 +414,34 @@ def roundtrip_goals(log, subject, var, x, orig_types):
                         break
         tn = _typename(orig_types.get(fld, "?"))
         _fail(log, "%s.from_dict(x.raw) is computed (field %s: %s raised %s: %s)" % (cname, fld, tn, type(e).__name__, str(e)[:80]),
-              "from_dict:%s:%s" % (type(e).__name__, tn), dict(rk, aspect="load-raises", field=fld))
+              "load_field:npt.NDArray-alias" if "NDArray" in repr(orig_types.get(fld)) and isinstance(e, (AttributeError, TypeError))
+              else "from_dict:%s:%s" % (type(e).__name__, tn), dict(rk, aspect="load-raises", field=fld))
         return None
     v = prove_formula(z3.BoolVal(True), "%s.from_dict(x.raw) is computed" % cname)
     log.ok(v, {"nontrivial": False})
     # ---- equal, field by field ----
     for f in dataclasses.fields(cls):
-        c = CS.Cmp()
-        c.same(getattr(y, f.name), getattr(x, f.name), "%s.%s" % (cname, f.name))
-        what = "%s.from_dict(x.raw).%s == x.%s" % (cname, f.name, f.name)
-        rkk = dict(rk, aspect="equal", field=f.name)
-        if c.mismatch:
-            _fail(log, what + "  [" + "; ".join(c.mismatch[:3]) + "]", "roundtrip:%s:%s" % (_typename(orig_types.get(f.name)), _mis_kind(c.mismatch[0])), rkk)
-            continue
-        v = prove_formula(c.formula(), what)
-        log.decide(v, key="roundtrip:%s.%s" % (cname, f.name), replay=(MOD, "replay_roundtrip", rkk), candidates=[{}])
+        xv, yv = getattr(x, f.name), getattr(y, f.name)
+        if isinstance(xv, interpolation.XGrid) and isinstance(yv, interpolation.XGrid):
+            # the grid and its logarithmic flag are two separate obligations
+            parts = [(".log", xv.log, yv.log, "roundtrip:XGrid-field.log", "equal-log"),
+                     (".raw", xv.raw, yv.raw, "roundtrip:%s.%s.raw" % (kname, f.name), "equal-raw")]
+        else:
+            parts = [("", xv, yv, "roundtrip:%s.%s" % (kname, f.name), "equal")]
+        for suffix, xa, ya, key, aspect in parts:
+            c = CS.Cmp()
+            c.same(ya, xa, "%s.%s%s" % (cname, f.name, suffix))
+            what = "%s.from_dict(x.raw).%s%s == x.%s%s" % (cname, f.name, suffix, f.name, suffix)
+            rkk = dict(rk, aspect=aspect, field=f.name)
+            if c.mismatch:
+                if xa is None and ya is not None:
+                    key = "load_typing:Optional-None-coerced"
+                else:
+                    key = "roundtrip:%s:%s" % (_typename(orig_types.get(f.name)), _mis_kind(c.mismatch[0]))
+                _fail(log, what + "  [" + "; ".join(c.mismatch[:3]) + "]", key, rkk)
+                continue
+            v = prove_formula(c.formula(), what)
+            _decide(log, v, key=key, replay=(MOD, "replay_roundtrip", rkk), candidates=[{}])
     return y
 
 
@@ -423,18 +461,38 @@ def _orig_types(cls):
 # ---------------------------------------------------------------------------
 # cases
 # ---------------------------------------------------------------------------
-def case_roundtrip(log, subject, var):
+def _label(subject, var):
+    return "%s{%s}" % (subject, ",".join("%s=%s" % kv for kv in sorted(var.items())))
+
+
+def case_group(log, items):
+    """items: list of (subject, var).  One worker handles several of them (process start-up dominates)."""
+    _start(log)
+    reals = [concrete_record({}, s, v) if not CS._INSTALLED else None for s, v in items]  # real code, before any patching
     dl, ip, rc, mt, cnp = _setup()
-    cls, build = SUBJECTS[subject]
-    log.encode(dl.DictLike._from_dict, dl.DictLike._raw, dl.load_field, dl.load_typing, dl.load_enum, dl.raw_field, cls)
-    if subject in ("OperatorCard", "Metadata", "KXGrid"):
-        log.encode(ip.XGrid)
-    if subject == "TheoryCard":
+    log.encode(dl.DictLike._from_dict, dl.DictLike._raw, dl.load_field, dl.load_typing, dl.load_enum, dl.raw_field)
+    subjects = {s for s, _v in items}
+    if subjects & {"OperatorCard", "Metadata", "KXGrid"}:
+        log.encode(ip.XGrid.__init__, ip.XGrid.tolist, ip.XGrid.dump, ip.XGrid.raw.fget)
+    if "TheoryCard" in subjects:
         log.encode(TheoryCard.__post_init__)
-    if subject == "Metadata":
+    if "Metadata" in subjects:
         log.encode(Metadata.raw.fget, DictLike.public_raw.fget)
+    if subjects & {"TheoryCard", "OperatorCard", "Configs", "Debug"}:
+        log.encode(rc)
+    if subjects & {"HeavyInfo", "CouplingsInfo", "TheoryCard"}:
+        import eko.quantities.couplings as qc
+        import eko.quantities.heavy_quarks as qh
+
+        log.encode(qc, qh)
+    for (subject, var), real in zip(items, reals):
+        _roundtrip_one(log, subject, var, real)
+
+
+def _roundtrip_one(log, subject, var, real):
+    cls, build = SUBJECTS[subject]
     orig = _orig_types(cls)
-    state = {}
+    label = _label(subject, var)
 
     def run():
         mk = CS.SymMk(var.get("flavour", "py"))
@@ -444,26 +502,24 @@ def case_roundtrip(log, subject, var):
             if _engine_exc(e):
                 raise
             return None  # not an object of the class (e.g. duplicated grid points): outside the quantifier
-        y = roundtrip_goals(log, subject, var, x, orig)
+        roundtrip_goals(log, subject, var, x, orig, label)
         if subject == "TheoryCard" and var.get("matching") == "default":
             c = CS.Cmp()
             c.same(x.matching_order, (x.order[0] - 1, 0), "matching_order")
-            v = prove_formula(c.formula() if not c.mismatch else z3.BoolVal(False), "TheoryCard.matching_order defaults to (order[0]-1, 0)")
-            log.decide(v, key="TheoryCard.__post_init__:matching_order", replay=(MOD, "replay_default", {"var": var}), candidates=[{}])
-        log.twin("domain")
+            v = prove_formula(c.formula() if not c.mismatch else z3.BoolVal(False), label + " TheoryCard.matching_order defaults to (order[0]-1, 0)")
+            _decide(log, v, key="TheoryCard.__post_init__:matching_order", replay=(MOD, "replay_default", {"var": var}), candidates=[{}])
+        log.twin(label)
         log.collect_ctx()
-        state.setdefault("first", (x, mk))
-        if "val" not in state:
-            state["val"] = _validation_record(x, y, mk)
         return True
 
     _r, pm = explore(run, max_paths=64)
     log.path_stats(pm)
-    _validate(log, subject, var, state.get("val"))
+    _validate(log, subject, var, real)
 
 
 def case_xgrid(log, var):
     """XGrid.load(g.dump()) keeps grid and log flag."""
+    _start(log)
     dl, ip, rc, mt, cnp = _setup()
     log.encode(ip.XGrid.__init__, ip.XGrid.dump, ip.XGrid.load, ip.XGrid.tolist, ip.XGrid.raw.fget)
 
@@ -483,20 +539,20 @@ def case_xgrid(log, var):
             if _engine_exc(e):
                 raise
             v = prove_formula(z3.BoolVal(False), "XGrid.load(g.dump()) is computed (raised %s)" % type(e).__name__)
-            log.decide(v, key="XGrid:dump/load raises", replay=(MOD, "replay_xgrid", rk), candidates=[{}])
+            _decide(log, v, key="XGrid:dump/load raises", replay=(MOD, "replay_xgrid", rk), candidates=[{}])
             return None
         bad = CS.nonplain(d, "dump")
         v = prove_formula(z3.BoolVal(not bad), "XGrid.dump() is plain python data %s" % (bad[:1] or ""))
-        log.decide(v, key="XGrid.dump:plain", replay=(MOD, "replay_xgrid", dict(rk, aspect="plain")), candidates=[{}])
+        _decide(log, v, key="XGrid.dump:plain", replay=(MOD, "replay_xgrid", dict(rk, aspect="plain")), candidates=[{}])
         c = CS.Cmp()
         c.same(g2, g, "XGrid")
         v = prove_formula(c.formula() if not c.mismatch else z3.BoolVal(False), "XGrid.load(g.dump()) has the same grid and log flag %s" % (c.mismatch[:1] or ""))
-        log.decide(v, key="XGrid:dump/load", replay=(MOD, "replay_xgrid", dict(rk, aspect="equal")), candidates=[{}])
+        _decide(log, v, key="XGrid:dump/load", replay=(MOD, "replay_xgrid", dict(rk, aspect="equal")), candidates=[{}])
         # the dump records the flag the grid was built with
         c = CS.Cmp()
         c.leaf(d["log"], g.log, "dump.log")
         v = prove_formula(c.formula() if not c.mismatch else z3.BoolVal(False), "XGrid.dump()['log'] == g.log")
-        log.decide(v, key="XGrid.dump:log", replay=(MOD, "replay_xgrid", dict(rk, aspect="flag")), candidates=[{}])
+        _decide(log, v, key="XGrid.dump:log", replay=(MOD, "replay_xgrid", dict(rk, aspect="flag")), candidates=[{}])
         log.twin("domain")
         log.collect_ctx()
 
@@ -535,6 +591,7 @@ def _raw_operator(mk, var):
 def case_interpolator(log, var):
     import importlib
 
+    _start(log)
     dl, ip, rc, mt, cnp = _setup()
     commons = importlib.import_module("eko.runner.commons")
     commons.np = cnp
@@ -556,25 +613,25 @@ def case_interpolator(log, var):
             if _engine_exc(e):
                 raise
             v = prove_formula(z3.BoolVal(False), "commons.interpolator(card) is computed (raised %s: %s)" % (type(e).__name__, e))
-            log.decide(v, key="interpolator:raises", replay=(MOD, "replay_interpolator", rk), candidates=[{}])
+            _decide(log, v, key="interpolator:raises", replay=(MOD, "replay_interpolator", rk), candidates=[{}])
             return None
         is_log = card.configs.interpolation_is_log
         deg = card.configs.interpolation_polynomial_degree
         c = CS.Cmp()
         c.leaf(disp.log, is_log, "log")
         v = prove_formula(c.formula() if not c.mismatch else z3.BoolVal(False), "interpolator(card).log == card.configs.interpolation_is_log")
-        log.decide(v, key="interpolator:log", replay=(MOD, "replay_interpolator", dict(rk, aspect="log")), candidates=[{}])
+        _decide(log, v, key="interpolator:log", replay=(MOD, "replay_interpolator", dict(rk, aspect="log")), candidates=[{}])
         c = CS.Cmp()
         c.leaf(disp.polynomial_degree, deg, "degree")
         v = prove_formula(c.formula() if not c.mismatch else z3.BoolVal(False),
                           "interpolator(card).polynomial_degree == card.configs.interpolation_polynomial_degree")
-        log.decide(v, key="interpolator:degree", replay=(MOD, "replay_interpolator", dict(rk, aspect="degree")), candidates=[{}])
+        _decide(log, v, key="interpolator:degree", replay=(MOD, "replay_interpolator", dict(rk, aspect="degree")), candidates=[{}])
         c = CS.Cmp()
         for bf in _BasisRecorder.made:
             c.leaf(bf._mode_log, is_log, "basis.mode_log")
         ok = len(_BasisRecorder.made) == n and not c.mismatch
         v = prove_formula(c.formula() if ok else z3.BoolVal(False), "all %d basis functions are built with mode_log == interpolation_is_log" % n)
-        log.decide(v, key="interpolator:basis.mode_log", replay=(MOD, "replay_interpolator", dict(rk, aspect="basis")), candidates=[{}])
+        _decide(log, v, key="interpolator:log", replay=(MOD, "replay_interpolator", dict(rk, aspect="basis")), candidates=[{}])
         # every block [kmin,kmax] spans degree+1 grid points inside the grid
         fs = []
         for bf in _BasisRecorder.made[:1]:
@@ -585,12 +642,110 @@ def case_interpolator(log, var):
                 zdeg = deg.e if isinstance(deg, CS.IL) else deg
                 fs.append(z3.And(zmax - zmin == zdeg, zmin >= 0, zmax <= n - 1))
         v = prove_formula(z3.And(fs) if ok and fs else z3.BoolVal(False), "every interpolation block spans degree+1 points of the grid")
-        log.decide(v, key="interpolator:blocks", replay=(MOD, "replay_interpolator", dict(rk, aspect="blocks")), candidates=[{}])
+        _decide(log, v, key="interpolator:blocks", replay=(MOD, "replay_interpolator", dict(rk, aspect="blocks")), candidates=[{}])
         log.twin("domain")
         log.collect_ctx()
 
     _r, pm = explore(run, max_paths=256)
     log.path_stats(pm)
+
+
+# ---------------------------------------------------------------------------
+# CrossHair: extra counterexample finder over str-shaped inputs (never a passing verdict)
+# ---------------------------------------------------------------------------
+CROSSHAIR_CONTRACTS = '''"""CrossHair contracts for str-shaped DictLike fields (generated by harness/C40.py)."""
+import sys
+sys.path.insert(0, %(src)r)
+import enum
+from dataclasses import dataclass
+from typing import Optional
+from eko.io import dictlike
+
+
+class Color(enum.Enum):
+    RED = "red"
+    GREEN = "green"
+
+
+@dataclass
+class S(dictlike.DictLike):
+    s: str
+    o: Optional[str] = None
+
+
+def roundtrip_str(s: str) -> bool:
+    """
+    post: __return__
+    """
+    x = S(s=s, o=s)
+    y = S.from_dict(x.raw)
+    return y.s == s and y.o == s
+
+
+def roundtrip_optional(s: Optional[str]) -> bool:
+    """
+    post: __return__
+    """
+    x = S(s="a", o=s)
+    return S.from_dict(x.raw).o == s
+
+
+def enum_loader(s: str) -> bool:
+    """
+    post: __return__
+    """
+    try:
+        m = dictlike.load_enum(Color, s)
+    except ValueError:
+        return s not in ("red", "green", "RED", "GREEN")
+    return m.value == s or m.name == s
+'''
+
+_CH_KEYS = {"roundtrip_optional": "load_typing:Optional-None-coerced", "roundtrip_str": "crosshair:str-roundtrip", "enum_loader": "crosshair:load_enum"}
+
+
+def case_crosshair(log, budget):
+    import re
+    import subprocess
+    import tempfile
+
+    _start(log)
+    exe = os.path.join(H.VERIF, ".venv", "bin", "crosshair")
+    if not os.path.exists(exe):
+        log.notes.append("crosshair not installed: extra counterexample search skipped")
+        return
+    d = tempfile.mkdtemp(prefix="c40_crosshair_")
+    path = os.path.join(d, "c40_contracts.py")
+    with open(path, "w") as f:
+        f.write(CROSSHAIR_CONTRACTS % {"src": os.path.join(H.REPO, "src")})
+    try:
+        r = subprocess.run([exe, "check", "--per_condition_timeout", str(budget), path], capture_output=True, text=True, timeout=6 * budget + 60)
+        out = r.stdout + r.stderr
+    except Exception as e:
+        log.notes.append("crosshair run failed: %s" % e)
+        return
+    finally:
+        import shutil
+
+        shutil.rmtree(d, ignore_errors=True)
+    found = re.findall(r"error: false when calling (\w+)\((.*)\) \(which returns", out)
+    log.notes.append("crosshair: %d counterexample(s) proposed: %r" % (len(found), found))
+    for fn, args in found:
+        v = S.Verdict("sat", "CrossHair counterexample: %s(%s) violates its contract" % (fn, args), None, None, 0.0, None, 1)
+        _decide(log, v, key=_CH_KEYS.get(fn, "crosshair:" + fn), replay=(MOD, "replay_crosshair", {"fn": fn, "args": args}), candidates=[{}])
+
+
+def replay_crosshair(point, fn, args):
+    import ast
+
+    ns = {}
+    exec(compile(CROSSHAIR_CONTRACTS % {"src": os.path.join(H.REPO, "src")}, "c40_contracts", "exec"), ns)
+    try:
+        val = ast.literal_eval("(" + args + ",)")
+    except Exception:
+        return None
+    ok = ns[fn](*val)
+    return None if ok else {"detail": "contract %s%r is false on the real code (DictLike with a str / Optional[str] field)" % (fn, val)}
 
 
 # ---------------------------------------------------------------------------
@@ -601,6 +756,8 @@ _PYNAME = {"float": "float", "int": "int", "bool": "bool"}
 
 def _annot_sym(v, ev):
     """annotated structure of a symbolic value evaluated with ev(leaf) -> number"""
+    if type(v) in (float, int, bool):
+        return [type(v).__name__, v]
     if isinstance(v, CS.NanLeaf):
         return ["float", "nan"]
     if isinstance(v, (CS.FL, CS.IL, CS.BL)):
@@ -645,45 +802,84 @@ def _annot_common(v, rec):
     return ["other", type(v).__name__]
 
 
-def _validation_record(x, y, mk):
-    """On the current path: a complete point (model of the path condition, builder defaults for the leaves the
-    path condition does not mention), and x.raw / from_dict(x.raw) evaluated at it."""
-    rs, m, _dt = S.check(S.context_constraints())
-    if rs != "sat":
-        return None
-    point = {}
-    for d in m.decls():
-        point[d.name()] = str(m[d])
-    for name, (kind, default) in mk.defaults.items():
-        if name not in point:
-            point[name] = str(Fraction(default)) if kind == "f" else str(default)
-    frac, isub, bsub = {}, [], []
-    for k, s in point.items():
-        if s in ("True", "False"):
-            bsub.append((z3.Bool(k), z3.BoolVal(s == "True")))
-            continue
-        try:
-            frac[k] = CS._num(s)
-        except Exception:
-            continue
-        if frac[k].denominator == 1:
-            isub.append((z3.Int(k), z3.IntVal(int(frac[k]))))
+class _PointPath:
+    """path manager deciding every branch by evaluating its condition at a concrete point"""
+
+    def __init__(self, frac, subs):
+        self.frac, self.subs, self.pc = frac, subs, []
+
+    def decide(self, b):
+        if hasattr(b, "e"):
+            r = z3.is_true(z3.simplify(z3.substitute(b.e, *self.subs)))
+        else:
+            val = S.NumEnv(self.frac).value(b.p)
+            r = {"<0": val < 0, "<=0": val <= 0, ">0": val > 0, ">=0": val >= 0, "==0": val == 0, "!=0": val != 0}[b.rel]
+        self.pc.append(b if r else b.negate())
+        return bool(r)
+
+
+def _symbolic_record(cls, build, var):
+    """x.raw and from_dict(x.raw) computed by the MODEL (patched modules, symbolic leaves) along the path of the
+    default point, evaluated at that point."""
+    probe = CS.SymMk(var.get("flavour", "py"))
+    ctx.reset()
+    ctx.path = None
+    frac, subs = {}, []
+    pp = _PointPath(frac, subs)
+
+    class _Mk(CS.SymMk):
+        def _reg(self, name):
+            kind, default = self.defaults[name]
+            if kind == "f":
+                frac[name] = Fraction(default)
+            elif kind == "i":
+                subs.append((z3.Int(name), z3.IntVal(int(default))))
+            else:
+                subs.append((z3.Bool(name), z3.BoolVal(bool(default))))
+
+        def float(self, name, default=None, positive=False, tag=None):
+            x = CS.SymMk.float(self, name, default, positive, tag)
+            self._reg(name)
+            return x
+
+        def int(self, name, default=None, lo=None, hi=None, tag=None):
+            x = CS.SymMk.int(self, name, default, lo, hi, tag)
+            self._reg(name)
+            return x
+
+        def bool(self, name, default=None, tag=None):
+            x = CS.SymMk.bool(self, name, default, tag)
+            self._reg(name)
+            return x
 
     def ev(leaf):
         if isinstance(leaf, CS.IL):
-            return leaf.e if isinstance(leaf.e, int) else int(str(z3.simplify(z3.substitute(leaf.e, *isub))))
+            return leaf.e if isinstance(leaf.e, int) else int(str(z3.simplify(z3.substitute(leaf.e, *subs))))
         if isinstance(leaf, CS.BL):
-            return leaf.e if isinstance(leaf.e, bool) else z3.is_true(z3.simplify(z3.substitute(leaf.e, *(isub + bsub))))
+            return leaf.e if isinstance(leaf.e, bool) else z3.is_true(z3.simplify(z3.substitute(leaf.e, *subs)))
         return float(S.NumEnv(frac).value(leaf))
 
-    rec = {"point": point}
+    ctx.path = pp
+    rec = {}
     try:
-        rec["raw"] = _annot_sym(x.raw, ev)
-    except Exception as e:
-        if _engine_exc(e):
-            raise
-        rec["raw"] = "EXC:" + type(e).__name__
-    rec["loaded"] = _annot_sym(y, ev) if y is not None else "EXC"
+        x = build(_Mk(var.get("flavour", "py")), var)
+        try:
+            raw = x.raw
+            rec["raw"] = _annot_sym(raw, ev)
+        except Exception as e:
+            if _engine_exc(e):
+                raise
+            rec["raw"] = "EXC:" + type(e).__name__
+            rec["loaded"] = "EXC"
+            return rec
+        try:
+            rec["loaded"] = _annot_sym(cls.from_dict(raw), ev)
+        except Exception as e:
+            if _engine_exc(e):
+                raise
+            rec["loaded"] = "EXC"
+    finally:
+        ctx.path = None
     return rec
 
 
@@ -718,24 +914,35 @@ def _close(a, b):
     return a == b
 
 
-def _validate(log, subject, var, rec):
-    if rec is None:
-        log.notes.append("no translator validation record for %s %r" % (subject, var))
+def _first_diff(a, b, path):
+    if isinstance(a, list) and isinstance(b, list) and len(a) == len(b):
+        for i, (x, y) in enumerate(zip(a, b)):
+            d = _first_diff(x, y, "%s/%d" % (path, i))
+            if d:
+                return d
+        return None
+    if isinstance(a, dict) and isinstance(b, dict) and set(a) == set(b):
+        for k in a:
+            d = _first_diff(a[k], b[k], "%s/%s" % (path, k))
+            if d:
+                return d
+        return None
+    return None if _close(a, b) else "%s: model %s vs real %s" % (path, json.dumps(a)[:160], json.dumps(b)[:160])
+
+
+def _validate(log, subject, var, real):
+    """translator validation: model record == record of the real code (computed in this process BEFORE the
+    modules were patched) at the builders' default point."""
+    if real is None:
+        log.notes.append("translator validation skipped for %s %r (process already patched)" % (subject, var))
         return
-    script = H.REPLAY_HEADER.format(repo=H.REPO, verif=H.VERIF) + (
-        "import json\nimport harness.C40 as M\n"
-        "print('REC=' + json.dumps(M.concrete_record(%r, %r, %r)))\n" % (rec["point"], subject, var))
-    rc_, out = H.run_script(script, timeout=300)
-    line = [l for l in out.splitlines() if l.startswith("REC=")]
-    if rc_ != 0 or not line:
-        log.inconclusive.append("translator validation for %s %r: real-code run failed rc=%s %s" % (subject, var, rc_, out[-300:]))
-        return
-    real = json.loads(line[0][4:])
-    mine = json.loads(json.dumps({"raw": rec["raw"], "loaded": rec["loaded"]}))
+    cls, build = SUBJECTS[subject]
+    mine = json.loads(json.dumps(_symbolic_record(cls, build, var)))
+    real = json.loads(json.dumps(real))
     for part in ("raw", "loaded"):
-        if not _close(mine[part], real[part]):
-            log.inconclusive.append("translator validation failed for %s %r (%s): model %s  vs real %s"
-                                    % (subject, var, part, json.dumps(mine[part])[:400], json.dumps(real[part])[:400]))
+        d = _first_diff(mine[part], real[part], part)
+        if d:
+            log.inconclusive.append("translator validation failed for %s %r: %s" % (subject, var, d))
             return
     log.validate(2)
 
@@ -785,7 +992,16 @@ def replay_roundtrip(point, subject, var, aspect, field):
         return None
     if aspect == "load-raises":
         return None
-    diffs = CS.concrete_same(getattr(y, field), getattr(x, field), "%s.%s" % (subject, field))
+    xa, ya = getattr(x, field), getattr(y, field)
+    if aspect == "equal-log":
+        if not isinstance(ya, interpolation.XGrid):
+            return None
+        xa, ya = bool(xa.log), bool(ya.log)
+    elif aspect == "equal-raw":
+        if not isinstance(ya, interpolation.XGrid):
+            return None
+        xa, ya = np.asarray(xa.raw), np.asarray(ya.raw)
+    diffs = CS.concrete_same(ya, xa, "%s.%s%s" % (subject, field, {"equal-log": ".log", "equal-raw": ".raw"}.get(aspect, "")))
     if diffs:
         return {"detail": "from_dict(safe_load(safe_dump(x.raw))) differs from x: %s   (x.%s = %r)" % ("; ".join(diffs[:3]), field, getattr(x, field))}
     return None
@@ -877,6 +1093,7 @@ def main():
         "Metadata with an attached path (_path is deliberately excluded from raw)",
         "str-valued leaves are concrete (str and numpy.str_)",
         "the numerical content of BasisFunction (C34); only how the dispatcher parametrises it",
+        "CrossHair (case crosshair.str-fields) only proposes counterexamples over str / Optional[str] fields and load_enum; finding none proves nothing",
     ]
     chk.stubs = [
         "float/int/bool inside the declared field types and the name `float` in eko.io.dictlike are replaced by constructor classes that apply the builtin "
@@ -888,36 +1105,57 @@ def main():
     chk.assumptions = ["structural goals (raw is computed / is plain / from_dict is computed) have no numeric content: they are recorded as path-feasibility "
                        "queries (violated iff the path on which the structure goes wrong is feasible)"]
     thorough = H.tier() == "thorough"
+    only = os.environ.get("C40_ONLY")
+    if only:
+        _case = chk.case
+        chk.case = lambda name, fn, **kw: _case(name, fn, **kw) if only in name else None
     flavours = ["py", "np", "np32"]
-    # real classes
+    groups = {}
+
+    def add(group, subject, **var):
+        groups.setdefault(group, []).append((subject, var))
+
     for fl in flavours:
         for k in range(2):
-            chk.case("TheoryCard.%s.k%d" % (fl, k), case_roundtrip, subject="TheoryCard", var={"flavour": fl, "k": k, "matching": ["given", "default"][k]})
-        chk.case("TheoryCard.%s.fhmruvv-none" % fl, case_roundtrip, subject="TheoryCard", var={"flavour": fl, "k": 0, "fhmruvv": "none"})
-        for k in (range(8) if fl == "py" or thorough else range(2)):
-            chk.case("Configs.%s.k%d" % (fl, k), case_roundtrip, subject="Configs", var={"flavour": fl, "k": k})
-        chk.case("OperatorCard.%s" % fl, case_roundtrip, subject="OperatorCard", var={"flavour": fl, "k": 1, "nmu": 2})
-        chk.case("Metadata.%s" % fl, case_roundtrip, subject="Metadata", var={"flavour": fl})
-        for s in ("Debug", "HeavyInfo", "CouplingsInfo"):
-            chk.case("%s.%s" % (s, fl), case_roundtrip, subject=s, var={"flavour": fl, "k": 1})
-    chk.case("OperatorCard.py.unsorted-array", case_roundtrip, subject="OperatorCard", var={"flavour": "py", "k": 2, "nmu": 1, "sorted": False, "grid_as": "array"})
-    # synthetic family
-    for fl in flavours:
-        for s in ("KScalars", "KTuple", "KNested", "KList", "KDict", "KNewType", "Inner"):
-            chk.case("%s.%s" % (s, fl), case_roundtrip, subject=s, var={"flavour": fl})
-    chk.case("KScalars.npstr", case_roundtrip, subject="KScalars", var={"flavour": "py", "str": "np"})
-    for s in ("KArrayNd", "KArrayNDArray", "KArrayNDArrayF", "KOptArray"):
+            add("cards." + fl, "TheoryCard", flavour=fl, k=k, matching=["given", "default"][k])
+        add("cards." + fl, "TheoryCard", flavour=fl, k=0, fhmruvv="none")
+        add("cards." + fl, "OperatorCard", flavour=fl, k=1, nmu=2)
+        add("cards." + fl, "Metadata", flavour=fl)
+        for sname in ("Debug", "HeavyInfo", "CouplingsInfo"):
+            add("cards." + fl, sname, flavour=fl, k=1)
+        for k in (range(8) if fl == "py" else range(2)):
+            add("configs." + fl, "Configs", flavour=fl, k=k)
+        for sname in ("KScalars", "KTuple", "KNested", "KList", "KDict", "KNewType", "Inner"):
+            add("kinds." + fl, sname, flavour=fl)
+    for sname in ("KArrayNd", "KArrayNDArray", "KArrayNDArrayF", "KOptArray"):
         for dt in ("float64", "int64", "bool"):
-            chk.case("%s.%s" % (s, dt), case_roundtrip, subject=s, var={"flavour": "py", "dt": dt})
-    chk.case("KOptArray.none", case_roundtrip, subject="KOptArray", var={"none": True})
+            add("arrays." + sname, sname, flavour="py", dt=dt)
+    add("arrays.KOptArray", "KOptArray", none=True)
     for k in range(3):
-        chk.case("KEnum.k%d" % k, case_roundtrip, subject="KEnum", var={"k": k, "none": k == 2})
-    chk.case("KOptional.values", case_roundtrip, subject="KOptional", var={"flavour": "py"})
-    chk.case("KOptional.none", case_roundtrip, subject="KOptional", var={"none": True})
-    chk.case("KDefault.implicit", case_roundtrip, subject="KDefault", var={})
-    chk.case("KDefault.explicit", case_roundtrip, subject="KDefault", var={"explicit": True})
-    chk.case("KXGrid.list", case_roundtrip, subject="KXGrid", var={})
-    chk.case("KXGrid.array.unsorted", case_roundtrip, subject="KXGrid", var={"grid_as": "array", "sorted": False, "flavour": "np"})
+        add("misc.enum-optional", "KEnum", k=k, none=(k == 2))
+    add("misc.enum-optional", "KOptional", flavour="py")
+    add("misc.enum-optional", "KOptional", none=True)
+    add("misc.enum-optional", "KDefault")
+    add("misc.enum-optional", "KDefault", explicit=True)
+    add("misc.enum-optional", "KScalars", flavour="py", str="np")
+    add("misc.xgrid", "KXGrid")
+    add("misc.xgrid", "KXGrid", grid_as="array", sorted=False, flavour="np")
+    add("misc.xgrid", "OperatorCard", flavour="py", k=2, nmu=1, sorted=False, grid_as="array")
+    if thorough:
+        for n in (2, 4):
+            add("thorough.operator.n%d" % n, "OperatorCard", flavour="py", k=3, nmu=1, n=n, sorted=False)
+        for k in range(8):
+            for ks in range(3):
+                for ki in range(3):
+                    add("thorough.configs.k%d" % k, "Configs", flavour="py", k=k, ks=ks, ki=ki)
+        for fl in flavours:
+            for k in range(8):
+                add("thorough.operator.%s.%d" % (fl, k // 4), "OperatorCard", flavour=fl, k=k, nmu=1 + k % 2)
+                add("thorough.theory.%s.%d" % (fl, k // 4), "TheoryCard", flavour=fl, k=k, matching=["given", "default"][k % 2],
+                    fhmruvv=["sym", "none"][(k // 2) % 2])
+    for g, items in groups.items():
+        chk.case(g, case_group, items=items)
+    chk.case("crosshair.str-fields", case_crosshair, budget=30 if thorough else 8)
     # XGrid API
     chk.case("XGrid.dumpload.sorted", case_xgrid, var={"n": 3})
     chk.case("XGrid.dumpload.unsorted", case_xgrid, var={"n": 3, "sorted": False, "grid_as": "array"})
@@ -929,15 +1167,10 @@ def main():
             chk.case("interpolator.raw-card.n%d" % n, case_interpolator, var={"source": "raw", "n": n})
         for n in (2, 4):
             chk.case("XGrid.dumpload.unsorted.n%d" % n, case_xgrid, var={"n": n, "sorted": False})
-            chk.case("OperatorCard.py.n%d" % n, case_roundtrip, subject="OperatorCard", var={"flavour": "py", "k": 3, "nmu": 1, "n": n, "sorted": False})
-        for k in range(8):
-            for ks in range(3):
-                for ki in range(3):
-                    chk.case("Configs.py.%d.%d.%d" % (k, ks, ki), case_roundtrip, subject="Configs", var={"flavour": "py", "k": k, "ks": ks, "ki": ki})
-        for fl in flavours:
-            for k in range(8):
-                chk.case("OperatorCard.%s.k%d" % (fl, k), case_roundtrip, subject="OperatorCard", var={"flavour": fl, "k": k, "nmu": 1 + k % 2})
-    return chk.run()
+    try:
+        return chk.run()
+    finally:
+        CS.release_keys("C40")
 
 
 if __name__ == "__main__":
